@@ -295,6 +295,34 @@ Section spec2.
     destruct (evals (base (l3 s)) !! v) as [V|] eqn:HV; [|bad_handle; intros [? ?]; congruence].
     unfold lift3. cbn. unfold new_enum_value, alloc, ok. cbn. split; [by eexists|]. by intros cw ?.
   Qed.
+  Lemma spec_msg_resize m n fits : StepSpec2 s (MsgResize m n fits).
+  Proof.
+    unfold StepSpec2. cbn [step2]. unfold msg_resize.
+    destruct (msgs (base (l3 s)) !! m) as [M|] eqn:HM; [|bad_handle; intros [? ?]; congruence].
+    destruct (n <? 0)%Z eqn:H1; [cause1; left; split; [lia|done]|].
+    destruct (m_size M =? n)%Z eqn:H2.
+    { cbn. split; [by eexists|]. intros cw [[? _]|(M' & HM' & Hne & _)]; [lia|]. simplify_eq. lia. }
+    destruct (2 ^ 60 - 1 <? n)%Z eqn:H3.
+    { cause1. right. exists M. split_and!; [done|lia|]. left. split; [lia|done]. }
+    destruct (sender_bus_too_big (base (l3 s)) M n) eqn:H4.
+    { cause1. right. exists M. split_and!; [done|lia|]. right; left. split; [|done].
+      unfold sender_bus_too_big, parent_bus_too_big in H4.
+      destruct (m_sender M) as [i|] eqn:Hs; [|done]. destruct (ifaces (base (l3 s)) !! i) as [Ii|] eqn:HI; [|done].
+      destruct (i_parent Ii) as [b|] eqn:Hp; [|done]. destruct (buses (base (l3 s)) !! b) as [B|] eqn:HB; [|done].
+      by exists i, Ii, b, B. }
+    destruct fits; cbn [negb].
+    2: { cause1. right. exists M. split_and!; [done|lia|]. right; right. done. }
+    cbn. split; [by eexists|].
+    intros cw [[? _]|(M' & HM' & Hne & [[? _]|[[(i & Ii & b & B & Hs & HI & Hp & HB & Ht) _]|[? _]]])]; [lia|lia| |done].
+    simplify_eq. unfold sender_bus_too_big, parent_bus_too_big in H4. rewrite Hs, HI, Hp, HB in H4. congruence.
+  Qed.
+
+  Lemma spec_bus_set_type b t : StepSpec2 s (BusSetType b t).
+  Proof.
+    unfold StepSpec2. cbn [step2]. unfold bus_set_type.
+    destruct (buses (base (l3 s)) !! b) as [B|] eqn:HB; [|bad_handle; intros [? ?]; congruence].
+    cbn. split; [by eexists|]. by intros cw ?.
+  Qed.
 End spec2.
 
 Section spec2b.
@@ -388,6 +416,7 @@ Section spec2b.
     - by apply spec_update_name. - by apply spec_mux_insert. - by apply spec_mux_remove.
     - by apply spec_clear_group. - by apply spec_clear_all.
     - by apply spec_enum_clone. - by apply spec_eval_clone.
+    - by apply spec_msg_resize. - by apply spec_bus_set_type.
   Qed.
 End spec2b.
 
